@@ -4,5 +4,5 @@
 import sys
 sys.path[:0] = ['/repo' + "/pulser-core", '/repo' + "/pulser-simulation", "/verif"]
 from symx.replay import replay
-sys.exit(replay(check='checks.c04', kernel='param', shape={'program': 'mappable_shift_all', 'codec': 'legacy', 'kwmode': True},
+sys.exit(replay(check='checks.c04', kernel='param', shape={'program': 'vars_strided', 'codec': 'legacy'},
                 assignment={}, label='legacy:param_roundtrip_completes'))
